@@ -37,6 +37,7 @@ class Built:
         self.skipped = []
         self.noterm = []
         self.lemma_obls = {}
+        self.restructured = {}
         self.part = 'main'
         self.zorro_gate = None
 
@@ -105,6 +106,7 @@ def _lemma_obligations(b):
 def build(repo, verif, canary=False, only_files=None, degrade=(), extern=(), part='main'):
     b = Built()
     b.part = part
+    weave.load_loop_baseline(verif)
     src, log = extract.extract_all(os.path.join(repo, 'src'))
     b.log = log
     items, fnspecs, blockitems = [], [], []
@@ -163,6 +165,7 @@ def build(repo, verif, canary=False, only_files=None, degrade=(), extern=(), par
             continue
         w = weave.weave_file(f, src[f], fnspecs, blockitems, canary=canary, degrade=degrade, extern=extern, linemap=extract.LINEMAPS.get(f))
         b.skipped += w.skipped
+        b.restructured.update(w.restructured)
         b.noterm += [(f, n) for n in w.noterm]
         base = len(b.lines)
         b.lines.append('// ==== ' + f)
